@@ -12,7 +12,7 @@ import (
 func init() {
 	register(&Spec{ID: "C01", Title: "Outgoing messages are well-formed TDS packet sequences", Run: runC01,
 		Meta: core.Meta{
-			Explanation: "Structural necessary conditions of well-formed packetisation; the numeric quantification (every length x packet size x call split) is not decided. R01.1 (E-OWN): the transport Conn.conn is referenced in exactly four roles — initialised in NewConn, closed in Conn.Close, reader argument of Packet.ReadFrom in Conn.ReadFrom, writer argument of Packet.WriteTo in sendPacket; any other use bypasses packetisation. R01.2: in sendPacket the write is dominated by Header.MsgType := CurrentHeaderType; the end-of-message flag is set exactly on the edge where len(packet.Data) differs from the LIVE Conn.PacketBodySize() (a call, not a cached value) by or-ing TDS_BUFSTAT_EOM into Header.Status before the write; the byte count returned by the write is compared with Header.Length. R01.3: NewPacket sets Header.Length = size and Data = make(size-8); the trim in sendPackets stores Header.Length = PacketHeaderSize + k and Data = Data[:k] for the same k (the tx queue's indexData). R01.4: in sendPackets the partial-packet test is `i == indexPacket && indexData < PacketBodySize()` with a strict comparison against the live body size; the early `return nil` lies on its onlyFull edge, the trim on the other; the deferred DiscardUntilCurrentPosition runs on every exit. R01.5: SendRemainingPackets calls sendPackets(ctx, false) under the closed protocol and resets the channel on every exit (C03 R03.4). R01.6: the flush reaches its success return only through at least one sendPacket call (path-insensitive on the loop).",
+			Explanation: "Structural necessary conditions of well-formed packetisation; the numeric quantification (every length x packet size x call split) is not decided. R01.1 (E-OWN): the transport Conn.conn is referenced in exactly four roles — initialised in NewConn, closed in Conn.Close, reader argument of Packet.ReadFrom in Conn.ReadFrom, writer argument of Packet.WriteTo in sendPacket; any other use bypasses packetisation. R01.2: in sendPacket the write is dominated by Header.MsgType := CurrentHeaderType; the end-of-message flag is set exactly on the edge where len(packet.Data) differs from the LIVE Conn.PacketBodySize() (a call, not a cached value) by or-ing TDS_BUFSTAT_EOM into Header.Status before the write; the byte count returned by the write is compared with Header.Length. R01.3: NewPacket sets Header.Length = size and Data = make(size-8); the trim in sendPackets stores Header.Length = PacketHeaderSize + k and Data = Data[:k] for the same k (the tx queue's indexData). R01.4: in sendPackets the partial-packet test is `i == indexPacket && indexData < PacketBodySize()` with a strict comparison against the live body size; the early `return nil` lies on its onlyFull edge, the trim on the other; the deferred DiscardUntilCurrentPosition runs on every exit. R01.5: SendRemainingPackets calls sendPackets(ctx, false) under the closed protocol and resets the channel on every exit (C03 R03.4). R01.6: the flush reaches its success return only through at least one sendPacket call (path-insensitive on the loop). R01.7: Packet.WriteTo hands the whole serialised packet (packet.Bytes()) to the transport in exactly one Write call on every path — all channels share the transport without a send lock, so one Write per packet is what keeps packets of different channels from interleaving. R01.8: the tx side (header type, tx queue, lastPkgTx) is restored on every exit of SendRemainingPackets, also when the flush fails.",
 			NotDecided:  "Byte-exact concatenation of bodies, 'every packet but the last is full' as arithmetic and packet-size changes between messages are not decided.",
 			Assumptions: []string{"Packet.WriteTo serialises header then data (C15 / packet.go)", "channel id and packet number stamping is C12's R12.3"},
 		}})
